@@ -129,7 +129,15 @@ class SimTransport(transports.Transport):
             self.close()
 
     def peer_reset(self):
-        self._loop.call_soon(self._fatal, ConnectionResetError("sim: reset by peer"), "peer")
+        self._loop.call_soon(self._reset)
+
+    def _reset(self):
+        if self.eof_from_peer and not self._closing:
+            # After EOF asyncio has removed the read callback (streams keep the transport open for
+            # writing), so a later RST is only noticed by the next write.
+            self.fail_after = 0
+            return
+        self._fatal(ConnectionResetError("sim: reset by peer"), "peer")
 
     def pause(self):
         self._loop.call_soon(self._pause)
